@@ -18,7 +18,7 @@ for pid in ids:
             "evidence_file": f"/verif/evidence/{pid}.json",
             "replay_cmd_template": "cat {path}",
             "engine": "coq-model+correspondence",
-            "level_claimed": {"category": "proof", "text": c["text"], "design_ref": c.get("design_ref", "DESIGN.md section 4")},
+            "level_claimed": {"category": "proof", "text": c["text"] + (" " + c["extra_text"] if c.get("extra_text") else ""), "design_ref": c.get("design_ref", "DESIGN.md section 4")},
             "level_note": c["note"],
             "technique": c["technique"],
         })
